@@ -51,6 +51,14 @@ func flowCtx(t *rapid.T) Ctx {
 	c.Set("m1", Hash([]string{"only"}, []*E{Int(int64(rapid.IntRange(0, 9).Draw(t, "m1v")))}))
 	c.Set("em", Hash(nil, nil))
 	c.Set("str", Str(rapid.SampledFrom([]string{"", "a", "hey", "héy", "日本語", "a b", "éx", "<&>"}).Draw(t, "strv")))
+	// the same sequences as typed Go slices ([]int, []string): the engine converts them for looping
+	for _, p := range [][3]string{{"xs", "txs", "[]int"}, {"ws", "tws", "[]string"}, {"long", "tlong", "[]int"}} {
+		for i, n := range c.Names {
+			if n == p[0] {
+				c.Set(p[1], ZT(c.Vals[i], p[2]))
+			}
+		}
+	}
 	return c
 }
 
@@ -115,7 +123,13 @@ func (g *sgen) seq(loops []loopInfo) (*E, string) {
 			return Var(l.val), "int"
 		}
 	}
-	switch g.pick(16, "seq") {
+	switch g.pick(19, "seq") {
+	case 16:
+		return Var("txs"), "int"
+	case 17:
+		return Var("tws"), "str"
+	case 18:
+		return Var("tlong"), "int"
 	case 0:
 		return Var("xs"), "int"
 	case 1:
@@ -196,7 +210,14 @@ func (g *sgen) printStmt(loops []loopInfo) *S {
 func (g *sgen) setStmt(loops []loopInfo) *S {
 	name := fmt.Sprintf("v%d", g.pick(3, "setname"))
 	var e *E
-	switch g.pick(4, "setform") {
+	switch g.pick(5, "setform") {
+	case 4:
+		// an empty value assigned over whatever the name held (context value, earlier set,
+		// earlier iteration)
+		e = rapid.SampledFrom([]*E{Null(), Var("nul"), Var("undef"), Attr(Var("m"), "nokey"), Str(""), Int(0)}).Draw(g.t, "emptyval")
+		if g.pick(3, "overctx") == 0 {
+			name = rapid.SampledFrom([]string{"a", "s", "xs"}).Draw(g.t, "ctxname")
+		}
 	case 0:
 		e = g.x.intE(1)
 	case 1:
